@@ -32,9 +32,16 @@ struct BState {
 pub struct Baton {
     m: Mutex<BState>,
     cv: Condvar,
+    /// site-name prefixes at which threads of this execution may be switched
+    /// (None: everywhere). Hook sites of layers *below* the one a scenario
+    /// studies are reached while the layer above holds its own locks (the
+    /// relational engine calls the store inside an index lock, say), so a
+    /// scenario enables only its own layer's sites.
+    allow: Option<Vec<&'static str>>,
 }
 
 thread_local! {
+    static ALLOW: RefCell<Option<Vec<&'static str>>> = const { RefCell::new(None) };
     static ME: RefCell<Option<(Arc<Baton>, usize)>> = const { RefCell::new(None) };
     /// optional per-thread observer of the sites this thread yields at (see `set_site_observer`)
     static OBSERVER: RefCell<Option<Box<dyn Fn(&'static str)>>> = const { RefCell::new(None) };
@@ -54,11 +61,22 @@ pub fn set_site_observer(f: Option<Box<dyn Fn(&'static str)>>) {
     let _ = OBSERVER.try_with(|o| *o.borrow_mut() = f);
 }
 
+/// Restrict the sites at which the next `run_threads` of this thread switches
+/// threads to those starting with one of `prefixes` (see `Baton::allow`).
+pub fn set_allowed_sites(prefixes: &[&'static str]) {
+    ALLOW.with(|a| *a.borrow_mut() = Some(prefixes.to_vec()));
+}
+
 /// Called from harness code and (through the fn pointer installed in
 /// `tensor_store::verif_hooks`) from /repo hook sites.
 pub fn yield_point(site: &'static str) -> bool {
     let me = ME.try_with(|m| m.borrow().clone()).ok().flatten();
     if let Some((b, i)) = me {
+        if let Some(allow) = &b.allow {
+            if !allow.iter().any(|p| site.starts_with(p)) {
+                return false;
+            }
+        }
         let _ = OBSERVER.try_with(|o| {
             if let Ok(o) = o.try_borrow() {
                 if let Some(f) = o.as_ref() {
@@ -119,6 +137,7 @@ pub fn run_threads(ctx: &Arc<RunCtx>, schedule: &[u8], max_steps: usize, bodies:
     let baton = Arc::new(Baton {
         m: Mutex::new(BState { turn: Turn::Controller, done: vec![false; n], site_of: vec!["start"; n], waiting: vec![false; n] }),
         cv: Condvar::new(),
+        allow: ALLOW.with(|a| a.borrow().clone()),
     });
     let panics = Arc::new(Mutex::new(Vec::<String>::new()));
     let mut handles = Vec::new();
